@@ -9,6 +9,7 @@ import (
 	"math/rand"
 	"os"
 	"reflect"
+	"regexp"
 	"runtime"
 	"sort"
 	"strings"
@@ -74,6 +75,7 @@ type run struct {
 	outW     *outRec
 	dbg      *dbgRec
 	frames   int
+	cycles   int // completed render cycles (a cycle over an empty heap writes nothing)
 	addsLeft int
 	rng      *rand.Rand
 }
@@ -195,6 +197,13 @@ func (r *run) hook(point string, args ...interface{}) {
 	label := r.label(point, args)
 	if point == "ct:flush" {
 		r.rec(Event{"ev": "flush", "rows": args[0].(int), "pop": args[1].(int)})
+		r.mu.Lock()
+		r.cycles++
+		r.mu.Unlock()
+	}
+	if point == "dp:send" {
+		// the heap manager's queue was full: this push travels in its own goroutine
+		r.rec(Event{"ev": "detached", "b": strings.TrimPrefix(label, "dp:send:")})
 	}
 	if point == "hm:req" {
 		r.rec(Event{"ev": "hmreq", "g": label, "hlen": args[1].(int)})
@@ -717,6 +726,12 @@ func (r *run) nFrames() int {
 	return r.frames
 }
 
+func (r *run) nCycles() int {
+	r.mu.Lock()
+	defer r.mu.Unlock()
+	return r.cycles
+}
+
 func labels(gs []*gate) []string {
 	out := make([]string, 0, len(gs))
 	for _, g := range gs {
@@ -748,8 +763,17 @@ func libGoroutines() []string {
 	buf := make([]byte, 1<<20)
 	n := runtime.Stack(buf, true)
 	var out []string
-	for _, g := range strings.Split(string(buf[:n]), "\n\n") {
+	gs := strings.Split(string(buf[:n]), "\n\n")
+	// the caller comes first; only goroutines of its own bubble belong to this scenario
+	mine := ""
+	if m := reBubble.FindString(strings.SplitN(gs[0], "\n", 2)[0]); m != "" {
+		mine = m
+	}
+	for _, g := range gs {
 		if !strings.Contains(g, "github.com/vbauerster/mpb/v8") {
+			continue
+		}
+		if mine != "" && reBubble.FindString(strings.SplitN(g, "\n", 2)[0]) != mine {
 			continue
 		}
 		lines := strings.Split(g, "\n")
@@ -771,6 +795,7 @@ func libGoroutines() []string {
 		if i := strings.Index(head, "["); i >= 0 {
 			head = head[i:]
 		}
+		head = reBubble.ReplaceAllString(head, "bubble")
 		out = append(out, head+" "+strings.Join(frames, " < "))
 	}
 	if out == nil {
@@ -778,6 +803,8 @@ func libGoroutines() []string {
 	}
 	return out
 }
+
+var reBubble = regexp.MustCompile(`synctest bubble \d+`)
 
 func isClientGoroutine(s string) bool {
 	return strings.Contains(s, "verif/harness.(*run).exec")
@@ -831,10 +858,10 @@ func (r *run) scheduler(t *testing.T) (hang string) {
 			mode = "fair"
 		}
 		if mode == "fair" && fairFrom < 0 {
-			fairFrom = r.nFrames()
+			fairFrom = r.nCycles()
 			r.rec(Event{"ev": "fairmode", "step": step})
 		}
-		if mode == "fair" && r.nFrames()-fairFrom > fairFrames {
+		if mode == "fair" && r.nCycles()-fairFrom > fairFrames {
 			return "livelock"
 		}
 		if debugSched {
